@@ -423,6 +423,14 @@ fn slice_inputs(r: &mut Rng, n: usize, thorough: bool) -> Vec<Vec<u8>> {
                             let k = r.below(excess as u64) as usize;
                             s[k] = *r.pick(&pats);
                         }
+                        5 if excess > 1 => {
+                            // two blocks of padding, each pure but different: the outer block of the other padding byte
+                            let outer = 1 + r.below(excess as u64 - 1) as usize;
+                            let outer = if r.below(2) == 0 { (outer / 8).max(1) * 8 } else { outer }.min(excess - 1).max(1);
+                            for k in 0..outer {
+                                s[k] = !pad;
+                            }
+                        }
                         1 if excess < len => {
                             // make the sign bit of the value part agree / disagree with the padding
                             s[excess] = if pad == 0xff { 0x80 | (s[excess] & 0x7f) } else { s[excess] & 0x7f };
